@@ -25,6 +25,7 @@
 //! structurally; the signature names the constructs that remain.
 
 use crate::gate_eval::{ClockSpec, GateSim};
+use crate::ram_tpl::{RamSpec, Streams};
 use crate::synth_case::*;
 use num_bigint::BigUint;
 use std::collections::{BTreeMap, BTreeSet};
@@ -144,11 +145,40 @@ fn mask(w: u32) -> BigUint {
     (BigUint::from(1u32) << w) - 1u32
 }
 
-pub fn run_rtl(a: &Analyzed, stim: &Stimulus) -> Result<Trace, String> {
-    match std::panic::catch_unwind(std::panic::AssertUnwindSafe(|| a.run("Top", &Config::default(), stim))) {
+fn run_rtl_cfg(a: &Analyzed, stim: &Stimulus, cfg: &Config) -> Result<Trace, String> {
+    match std::panic::catch_unwind(std::panic::AssertUnwindSafe(|| a.run("Top", cfg, stim))) {
         Ok(r) => r,
         Err(_) => Err("panic".into()),
     }
+}
+
+/// The RTL trace: veryl's simulator with the default `Config`.  The same run
+/// with `disable_ff_opt` must give the same values — where the simulator's
+/// own engines disagree the case says nothing about the synthesizer (C02).
+pub fn run_rtl(a: &Analyzed, stim: &Stimulus) -> Result<Trace, String> {
+    let mut cfg = Config::default();
+    // development aids
+    if std::env::var("PROBE_NOFFOPT").is_ok() {
+        cfg.disable_ff_opt = true;
+    }
+    if std::env::var("PROBE_NOJIT").is_ok() {
+        cfg.use_jit = false;
+    }
+    let t = run_rtl_cfg(a, stim, &cfg)?;
+    if std::env::var("PROBE_SINGLE").is_ok() {
+        return Ok(t);
+    }
+    let mut c2 = cfg.clone();
+    c2.disable_ff_opt = !cfg.disable_ff_opt;
+    let t2 = run_rtl_cfg(a, stim, &c2).map_err(|e| format!("engines-disagree: the ff_opt variant fails: {e}"))?;
+    for (r1, r2) in t.steps.iter().zip(&t2.steps) {
+        for (x, y) in r1.iter().zip(r2) {
+            if x.value != y.value {
+                return Err("engines-disagree: default Config and disable_ff_opt give different traces (C02 matter)".into());
+            }
+        }
+    }
+    Ok(t)
 }
 
 /// What happened to a (text, stimulus, options) triple.
@@ -175,8 +205,8 @@ pub fn verdict(text: &str, case: &SynthCase, stim: &Stimulus, library: Library, 
     let rtl = match run_rtl(&a, stim) {
         Ok(t) => t,
         Err(e) => {
-            let e: String = e.chars().filter(|c| !c.is_ascii_digit()).take(50).collect();
-            return Verdict::Skip(format!("RTL simulator cannot run the design ({e})"));
+            let e: String = e.chars().filter(|c| !c.is_ascii_digit()).take(60).collect();
+            return Verdict::Skip(format!("RTL simulator: {e}"));
         }
     };
     match gate_vs_rtl(&sr.gate_ir.module, case, stim, &rtl) {
@@ -400,7 +430,23 @@ fn explain(case: &SynthCase, gate: &GateModule, mm: Mismatch) -> Outcome {
                 let (md, ms) = vdesign::minimize::minimize(design, &case.stim, &mut pred, budget_left);
                 let text = retype(&print_design(&md), case.clock, case.reset);
                 let feats: Vec<String> = design_features(&md).into_iter().collect();
-                let sig = format!("netlist-differs-from-rtl:{}", feats.join(","));
+                let hits = crate::synth_findings::design_hits(&md);
+                // several known shapes left in the minimised design: attribute to the most specific one
+                const PRIORITY: &[&str] = &[
+                    "reset-branch-not-plain-constants",
+                    "ff-read-after-write-in-block",
+                    "const-wider-than-declared-type",
+                    "signed-constant-not-sign-extended",
+                    "signed-comparison-in-unsigned-context",
+                    "ashr-in-unsigned-context",
+                    "operand-truncated-to-target-width",
+                    "signed-operand-in-unsigned-context",
+                ];
+                let sig = match PRIORITY.iter().find(|k| hits.contains(k)) {
+                    Some(k) => k.to_string(),
+                    None if hits.is_empty() => format!("unclassified:{}", feats.join(",")),
+                    None => hits.join("+"),
+                };
                 let detail = match verdict(&text, case, &ms, lib, ram) {
                     Verdict::Differ(sr2, m2) => format!(
                         "minimised: output {} after step {}: gate {:x} (X {:x}), RTL {:x}\n{}\n-- gate ir --\n{}",
@@ -419,39 +465,88 @@ fn explain(case: &SynthCase, gate: &GateModule, mm: Mismatch) -> Outcome {
         }
         let feats: Vec<String> = design_features(design).into_iter().collect();
         return Outcome::fail(
-            format!("netlist-differs-from-rtl(unminimised):{}", feats.join(",")),
+            format!("unclassified(unminimised):{}", feats.join(",")),
             format!("{head}\nreference value {:x}\n{}", rv.v, case.text),
             fail_payload(&case.text, case, &case.stim, json!(null)),
         );
     }
-    // memory-shaped case: the same text without inference
+    // memory-shaped case: minimise the specification, then ask the same text without inference
+    let Some((spec0, streams0)) = &case.ram_spec else {
+        return Outcome::fail("unclassified:recorded", format!("{head}\n{}", case.text), fail_payload(&case.text, case, &case.stim, json!(null)));
+    };
+    let differs = |sp: &RamSpec, st: &Streams| -> bool {
+        let c = ram_case_of(sp, st, case.clock, case.reset, case.library, case.ram);
+        matches!(verdict(&c.text, &c, &c.stim, c.library, c.ram), Verdict::Differ(..))
+    };
+    let mut spec = spec0.clone();
+    let mut streams = streams0.clone();
+    let mut budget = 120;
+    'outer: loop {
+        for cand in crate::ram_tpl::simpler(&spec) {
+            if budget == 0 {
+                break 'outer;
+            }
+            budget -= 1;
+            if differs(&cand, &streams) {
+                spec = cand;
+                continue 'outer;
+            }
+        }
+        break;
+    }
+    // shorter stimulus
+    while streams.resets.len() > 2 && budget > 0 {
+        budget -= 1;
+        let mut st = streams.clone();
+        st.resets.pop();
+        if differs(&spec, &st) {
+            streams = st;
+        } else {
+            break;
+        }
+    }
+    let mc = ram_case_of(&spec, &streams, case.clock, case.reset, case.library, case.ram);
     let off = RamConfig {
         min_bits: usize::MAX,
         max_ff_bits: usize::MAX,
         ..case.ram
     };
-    let styles: Vec<String> = case.classes.iter().filter(|c| c.starts_with("ram:write_") || c.starts_with("ram:read_") || c.starts_with("ram:child") || c.starts_with("ram:own")).map(|c| c[4..].to_string()).collect();
-    let inferred = !gate.ram_blocks.is_empty();
-    let without = match verdict(&case.text, case, &case.stim, case.library, off) {
+    let (inferred, detail) = match verdict(&mc.text, &mc, &mc.stim, mc.library, mc.ram) {
+        Verdict::Differ(sr, m2) => (
+            !sr.gate_ir.module.ram_blocks.is_empty(),
+            format!(
+                "minimised: output {} after step {}: gate {:x} (X {:x}), RTL {:x}\n{}\n-- gate ir --\n{}",
+                mc.stim.outputs[m2.output].name,
+                m2.step,
+                m2.gate,
+                m2.gate_x,
+                m2.rtl,
+                mc.text,
+                if sr.gate_ir.module.cells.len() < 150 { format!("{}", sr.gate_ir) } else { format!("({} cells)", sr.gate_ir.module.cells.len()) }
+            ),
+        ),
+        _ => (!gate.ram_blocks.is_empty(), mc.text.clone()),
+    };
+    let without = match verdict(&mc.text, &mc, &mc.stim, mc.library, off) {
         Verdict::Agree(..) => "agrees",
         Verdict::Differ(..) => "differs",
         Verdict::Broken(..) => "broken",
         Verdict::Skip(_) => "skipped",
     };
-    let sig = if inferred && without == "agrees" {
-        format!("ram-inference-changes-behaviour:{}", styles.join(","))
+    let feats = spec.signature_features();
+    let sig = if inferred && without == "agrees" && spec.has_reassigned_index() {
+        "ram-read-port-shared-by-address-text".to_string()
+    } else if !inferred && spec.ff_read_after_write() {
+        "ff-read-after-write-in-block".to_string()
+    } else if inferred && without == "agrees" {
+        format!("ram-inference-changes-behaviour:{}", feats.join(","))
     } else {
-        format!("netlist-differs-from-rtl(memory-module,{}):{}", if inferred { "inferred" } else { "flip-flops" }, styles.join(","))
+        format!("unclassified(memory-module,{}):{}", if inferred { "inferred" } else { "flip-flops" }, feats.join(","))
     };
     Outcome::fail(
         sig,
-        format!(
-            "{head}\nRAM blocks in the netlist: {}; the same text synthesized without inference {without} with the RTL simulator\n{}\n-- gate ir --\n{}",
-            gate.ram_blocks.len(),
-            case.text,
-            if gate.cells.len() < 200 { format!("{gate}") } else { format!("({} cells)", gate.cells.len()) }
-        ),
-        fail_payload(&case.text, case, &case.stim, json!({"without_inference": without})),
+        format!("{head}\nthe minimised text synthesized without inference {without} with the RTL simulator\n{detail}"),
+        fail_payload(&mc.text, &mc, &mc.stim, json!({"without_inference": without, "original": case.text})),
     )
 }
 
@@ -517,6 +612,7 @@ pub fn case_from_payload(p: &Value) -> SynthCase {
         family: "recorded",
         text: p["veryl"].as_str().unwrap_or("").to_string(),
         design: None,
+        ram_spec: None,
         stim: stim_from(&p["stimulus"]),
         clock,
         reset,
